@@ -142,18 +142,31 @@ def concurrent_senders(seed):
         sim.install_factories()
         sim.net.fate = lambda tx: [0.01]
         got = []
-        msgs = [bytes([65 + i]) * rng.randint(2 * s["prudp.fragment_size"] + 1, 5 * s["prudp.fragment_size"]) for i in range(rng.randint(2, 4))]
+        fs = s["prudp.fragment_size"]
+        # a mix of multi-fragment and single-fragment messages (at least one of each kind in most runs), started at staggered
+        # scheduling points so that a short send can be scheduled while a long one is between two fragments
+        def length(kind):
+            return {"long": rng.randint(2 * fs + 1, 5 * fs), "exact": fs, "short": rng.randint(1, fs), "two": fs + 1}[kind]
+        kinds = ["long"] + [rng.choice(["long", "short", "short", "exact", "two"]) for _ in range(rng.randint(1, 4))]
+        rng.shuffle(kinds)
+        msgs = [bytes([65 + i]) * length(k) for i, k in enumerate(kinds)]
+        yields = [rng.randint(0, 6) for _ in msgs]
+        s["prudp.version"] = rng.choice([0, 1])
         async def handler(client):
             while True:
                 try: got.append(await client.recv())
                 except anyio.EndOfStream: return
+        async def sender(c, m, k):
+            for _ in range(k):
+                await anyio.sleep(0)
+            await c.send(m)
         async def main():
             async with prudp.serve(handler, s, "10.0.0.1", 60000):
                 async with prudp.connect(s, "10.0.0.1", 60000) as c:
                     c.transport.socket.yield_on_send = True
                     async with anyio.create_task_group() as tg:
-                        for m in msgs:
-                            tg.start_soon(c.send, m)
+                        for m, k in zip(msgs, yields):
+                            tg.start_soon(sender, c, m, k)
                     await anyio.sleep(1)
         sim.run(main())
     if sorted(got) != sorted(msgs):
@@ -357,7 +370,7 @@ def run(ctx):
                 "delays up to 2.5·resend_timeout); each direction/substream is replayed through the Lean channel model (emitted wires "
                 "byte-exact, arrivals, checkpoint states); distinct non-trivial = sessions with ≥1 delivered message and ≥1 fault or fragment")
     directed = [(100000 + i, c[0], quick) for i, c in enumerate(directed_cases())]
-    directed += [(100100 + i, "concurrent-senders:%d" % i, quick) for i in range(6 if quick else 60)]
+    directed += [(100100 + i, "concurrent-senders:%d" % i, quick) for i in range(16 if quick else 200)]
     seeds = directed[::-1] + [(i, ctx.rng.getrandbits(48), quick) for i in range(n)]
     with multiprocessing.Pool(min(16, os.cpu_count() or 4)) as pool:
         results = pool.map(work, seeds, chunksize=1 if quick else 4)
